@@ -6,7 +6,7 @@ from concurrent.futures import ProcessPoolExecutor
 from vf.core import Report, Bounded, Violation, Ob
 from vf.runner import run_contracts
 
-LEVEL = "exploration"
+LEVEL = "other"
 
 C = ("txn", "fee")  # an opaque condition
 
@@ -129,7 +129,18 @@ def case(job):
 
 def run(report: Report, tier, seed):
     report.trust("path analysis of the program description in checks/c17.py (syntactic paths: both arms of If/Cond, zero or more loop iterations, Break/Continue exits, early Return)")
-    report.assume("no deductive obligation yet for validateSlots (sets of slots, memoised recursion over the product graph): exhaustive small-scope enumeration against an independent path analysis (bounded stand-in)")
+    report.assume("under contract (pyvc): TealBlock.validateSlots against the closure specification of contracts/c17_validate.py - arbitrary block graphs, op lists, slot sets; "
+                  "the recursive call is checked against the same contract (partial correctness; termination not proved)",
+                  "M17 (meta-lemma, not mechanised): a visited set that contains the root's successor states and is closed under successors contains every state reachable "
+                  "from the root along a syntactic path (induction on path length)",
+                  "requires: distinct ScratchSlot objects have distinct ids (ScratchSlot.__init__ contract O10.1 + the duplicate-id check preceding the call) - the memo key "
+                  "(id(block), *sorted ids) is then exactly the pair (block, slot set)",
+                  "trusted callee summaries: TealOp.getOp / getSlots / expr, TealBlock.isTerminal / getOutgoing are uninterpreted functions of the receiver (they are pure attribute reads / filters)",
+                  "bounded stand-in: the caller (assignScratchSlotsToSubroutines raising when the list is non-empty, per routine, shared slots pre-initialised) and the whole pipeline, "
+                  "by exhaustive small-scope enumeration against an independent path analysis")
+    from vf.core import use_repo
+    use_repo()
+    run_contracts(report, [("contracts.c17_validate", "ValidateSlots", "O17.1")])
     S = stmts(2, False)
     if tier == "quick":
         S = S[::3] + S[:40]
@@ -148,8 +159,15 @@ def run(report: Report, tier, seed):
                                   bound=f"statement shapes of nesting depth <= 2 over store / load / If / If-Else / Seq / While / Cond / Break / Continue / Return ({len(S)} shapes{' (every 3rd + first 40)' if tier == 'quick' else ', exhaustive'}), versions 4..10, optimiser default/off",
                                   cases=len(res), distinct_nontrivial=len({repr(j[0]) for j in jobs}), failures=len(bad)))
     report.sample({"shape": repr(S[11])[:200], "expected_rejected": analyse(("seq", [S[11]]), {False})[1]})
-    report.extra["explanation"] = f"B: exhaustive small scope ({nrej} shapes must be rejected, {len(res) - nrej} accepted)"
-    report.settle_refuted(None)
+    report.extra["explanation"] = f"P: validateSlots closure contract (pyvc); B: exhaustive small scope ({nrej} shapes must be rejected, {len(res) - nrej} accepted)"
+
+    def search(fn, obs):
+        mine = [b for b in bad if "succeeded" in b["problem"] or "identify" in b["problem"]] or bad
+        return {"input": {"main": repr(mine[0]["main"]), "version": mine[0]["version"]}, "what": mine[0]["problem"]} if mine else None
+    report.settle_undecided(search)
+    report.settle_refuted(search)
+    if any(o.status == "refuted" for o in report.obs):
+        bad = [b for b in bad if not ("succeeded" in b["problem"] or "identify" in b["problem"])]
     for b in bad[:3]:
         report.violation(Violation(key=f"rbw:{repr(b['main'])[:100]}", what=f"{b['problem']} on {repr(b['main'])[:200]}", replay={"main": repr(b["main"]), "version": b["version"]},
                                    confirmed_native=True))
